@@ -160,6 +160,19 @@ def run_case(i, rng, tier):
         if d:
             failures.append(C.fail(None, "functools.reduce(combine, partials) differs from the whole: %s" % C.fmt_diff(d), **wit))
 
+    # in-place fold (what an accumulator-style reduction does): zero() += p1 += p2 ...
+    if k >= 2:
+        try:
+            acc = whole.zero()
+            for p_ in partials:
+                acc += p_
+            d = O.diff(whole_obs, O.observe(acc), scale)
+            counters["iadd_folds"] = 1
+            if d:
+                failures.append(C.fail(None, "folding the partials with += into zero() differs from the whole: %s" % C.fmt_diff(d), **wit))
+        except Exception as e:  # noqa: BLE001
+            failures.append(C.fail(None, "folding the partials with += raised %s: %s" % (type(e).__name__, str(e)[:200]), **wit))
+
     # identity, commutativity, associativity on the partials
     a = partials[0]
     a_obs = O.observe(a)
